@@ -145,6 +145,10 @@ struct State {
     /// stops pre-empting a thread that can continue (bounds the cost of huge workloads; the
     /// interesting interleavings need few pre-emptions).
     max_switches: u64,
+    /// "Lazy workers": idle pool workers are only given the baton when no other thread can run.
+    /// Models workers that are slow to wake up: detached tasks nobody waits for may be starved
+    /// until the process exits (legal for rayon, which promises no fairness).
+    lazy_workers: bool,
     threads: Vec<Th>,
     current: usize,
     bag: Vec<Task>,
@@ -243,6 +247,7 @@ impl State {
             switches: 0,
             max_steps: 5_000_000,
             max_switches: 60_000,
+            lazy_workers: false,
             threads: Vec::new(),
             current: 0,
             bag: Vec::new(),
@@ -290,6 +295,7 @@ impl State {
                     "pct_horizon" => pct_horizon = v.parse().unwrap_or(2000),
                     "max_steps" => st.max_steps = v.parse().unwrap_or(5_000_000),
                     "max_switches" => st.max_switches = v.parse().unwrap_or(60_000),
+                    "lazy_workers" => st.lazy_workers = v == "1",
                     "out" => st.out_prefix = Some(v.to_owned()),
                     "log_level" => st.log_level = v.parse().unwrap_or(1),
                     "decisions_in" => {
@@ -399,7 +405,17 @@ impl State {
     /// Picks the next thread. `me_ok`: the current thread may continue.
     fn pick_next(&mut self, me: usize, me_may_continue: bool) -> Option<usize> {
         let me_ok = me_may_continue && self.threads[me].stall_until <= self.step;
-        let cands = self.candidates(me);
+        let mut cands = self.candidates(me);
+        if self.lazy_workers {
+            let busy: Vec<usize> = cands
+                .iter()
+                .copied()
+                .filter(|&t| !(self.threads[t].st == St::Blocked && matches!(self.threads[t].wait, Wait::Idle)))
+                .collect();
+            if me_ok || !busy.is_empty() {
+                cands = busy;
+            }
+        }
         if cands.is_empty() {
             return if me_may_continue { Some(me) } else { None };
         }
